@@ -87,9 +87,9 @@ func compare(a *cpu65c816.CPU, b *cpualt.CPU, c1, c2 int, s1, s2 bool) {
 	vp.Assert("debug-registers", a.PPC == b.PPC && a.PRK == b.PRK && a.WDM == b.WDM)
 }
 
-// Copy: a cpualt CPU made with InitFrom from a live, initialised CPU is an interpreter of its own:
-// stepping the copy is equivalent to stepping the primary interpreter from the same state, and
-// leaves the CPU it was copied from untouched (both share the memory devices of the original's bus).
+// Copy: CPUs made with InitFrom from live, initialised CPUs (both kinds) are interpreters of their
+// own: stepping the two copies is equivalent, and leaves the CPUs they were copied from untouched
+// (a copy shares the bus / memory devices of its original).
 func Copy(op int, mode int) {
 	m, x := uint8(mode>>1&1), uint8(mode&1)
 	pre := cpuenv.ArbitraryPre(m, x, 0)
@@ -100,10 +100,11 @@ func Copy(op int, mode int) {
 	vp.FillBytes("mem", cpuenv.AltMem)
 	cpuenv.MainMem[opAddr] = uint8(op)
 	cpuenv.AltMem[opAddr] = uint8(op)
-	a, b, orig := cpuenv.Main, cpuenv.AltCopy, cpuenv.Alt
+	a, b, orig, origMain := cpuenv.MainCopy, cpuenv.AltCopy, cpuenv.Alt, cpuenv.Main
 	pre.ToMain(a)
 	pre.ToAlt(b)
 	pre.ToAlt(orig)
+	pre.ToMain(origMain)
 	var c1, c2 int
 	var s1, s2 bool
 	p1 := vp.Try(func() { c1, s1 = a.Step() })
@@ -116,7 +117,9 @@ func Copy(op int, mode int) {
 	compare(a, b, c1, c2, s1, s2)
 	vp.Assert("memory", vp.BytesEqual(cpuenv.MainMem, cpuenv.AltMem))
 	back := cpuenv.FromAlt(orig)
-	vp.Assert("stepping-a-copy-leaves-the-original-cpu-untouched", back == pre)
+	backMain := cpuenv.FromMain(origMain)
+	backMain.BusM = pre.BusM // cpu65c816 has no such field
+	vp.Assert("stepping-a-copy-leaves-the-original-cpu-untouched", back == pre && backMain == pre)
 	vp.Reach("end")
 }
 
